@@ -15,6 +15,8 @@ BETAS = [0.0, 0.25, 0.5, 1.0, 1.5, 2.0]
 SCALES = [0.125, 0.5, 0.75, 1.0, 2.0]
 PLAIN_SHAPES = [(1,), (2,), (3,), (5,), (6,), (2, 2), (2, 3), (3, 2), (1, 4), (2, 1, 3)]
 BLOCK_LAYOUTS = [[(2,), (3,)], [(1,), (2, 2)], [(2, 3), (2,), (1,)], [(3,), (3,)]]
+# L21Norm: the axis handling lives on N-d arrays
+ND_SHAPES = [(2, 2), (2, 3), (3, 2), (1, 4), (2, 1, 3), (2, 3, 2), (3, 2, 2), (2, 2, 1, 2)]
 EPS = 2.0**-6
 
 
@@ -56,6 +58,8 @@ def layout(rng, fam, force_plain=False):
     elif fam in BLOCK_OK and not force_plain and rng.random() < 0.3:
         d["shape"] = None
         d["blocks"] = [list(s) for s in pick(rng, BLOCK_LAYOUTS)]
+    elif fam == "l21" and rng.random() < 0.75:
+        d["shape"] = list(pick(rng, ND_SHAPES))
     else:
         d["shape"] = list(pick(rng, PLAIN_SHAPES))
     d["cplx"] = bool(fam in COMPLEX_OK and rng.random() < 0.35)
@@ -83,7 +87,8 @@ def params_for(rng, fam, lay, boundary=False):
             P["axis"] = None
         else:
             nd = len(lay["shape"])
-            opts = [None, 0, -1] + ([1, [0, 1]] if nd >= 2 else []) + ([2, [0, 2], [1, 2]] if nd >= 3 else [])
+            opts = [None, 0, -1] + ([1, [0, 1], [1, 0], [-1, -2], [0]] if nd >= 2 else []) + (
+                [2, [0, 2], [1, 2], [0, -1], [-2, 0], [0, 1, 2]] if nd >= 3 else []) + ([[1, 3], [0, 2, 3], 3, [-1, 1]] if nd >= 4 else [])
             P["axis"] = pick(rng, opts)
     elif fam in ("setdist", "sqsetdist"):
         kinds = ["box", "nonneg", "ball", "point", "hyperplane"]
